@@ -4,6 +4,7 @@
 package hasher
 
 import (
+	"reflect"
 	"unsafe"
 
 	"github.com/zeebo/xxh3"
@@ -22,7 +23,13 @@ func NewHasher[K comparable](stringKeyFunc func(K) string) *Hasher[K] {
 	case string:
 		h.kstr = true
 	default:
-		h.ksize = int(unsafe.Sizeof(k))
+		// a named string type (type ID string) is laid out as a string and compares
+		// by contents: hash the contents too, not the header's pointer and length
+		if t := reflect.TypeOf(k); t != nil && t.Kind() == reflect.String {
+			h.kstr = true
+		} else {
+			h.ksize = int(unsafe.Sizeof(k))
+		}
 	}
 	return h
 }
